@@ -913,6 +913,21 @@ class BasisManaged(Managed):
     def unprotect_basis(self):
         self.is_basis_protected = False
         
+    def _storage_for_transform(self, data, SS):
+        """Returns `data` in an element type which holds its products with SS
+        
+        Transformations write the transformed values back into the storage.
+        Storage of whole numbers would truncate them, and real storage would
+        drop the imaginary parts produced by a complex transformation matrix.
+        The array is returned as it is if it can hold the values; otherwise
+        a converted copy is returned.
+        
+        """
+        rtype = numpy.result_type(data.dtype, SS.dtype, numpy.float64)
+        if data.dtype != rtype:
+            return data.astype(rtype)
+        return data
+        
         
 
 
